@@ -285,3 +285,37 @@ func VerifHarness_C09_DateTimeOffsetClockUnits() {
 	verifrt.Assert(err2 == nil && back.dateTime.Equal(base) && back.l == dt.l, "adding-then-subtracting-returns-the-value")
 	verifrt.Reach("end")
 }
+
+// C09-B3: years and months added to a leap day, across the Gregorian century rule (2100 and 1900 are not leap years,
+// 2000 and 2400 are): the result clamps to the end of February exactly when the target year has no Feb 29. The start
+// year comes from a menu, the amount is symbolic.
+func VerifHarness_C09_LeapDayAcrossCenturies() {
+	verifrt.SplitCalendar()
+	y := []int{2096, 2104, 1996, 1896, 2396}[verifrt.Choose("year", 5)]
+	unit := []string{"years", "months"}[verifrt.Choose("unit", 2)]
+	var amount, months int
+	if unit == "years" {
+		amount = verifrt.NondetIntRange("n", -5, 5) // symbolic: the engine case-splits the target year
+		months = 12 * amount
+	} else {
+		amount = []int{48, -48, 36, 60, -96, 1}[verifrt.Choose("months", 6)] // the months route on the same dates
+		months = amount
+	}
+	q := verifQty(amount, unit)
+	wy, wm, wd := verifAddMonths(y, 2, 29, months)
+	want := time.Date(wy, time.Month(wm), wd, 0, 0, 0, 0, time.UTC)
+	if verifrt.NondetBool("dateTime") {
+		dt := DateTime{time.Date(y, 2, 29, 10, 30, 0, 0, time.UTC), dtSecondLayout}
+		got, err := dt.Add(q)
+		verifrt.Assert(err == nil && got.dateTime.Equal(want.Add(10*time.Hour+30*time.Minute)), "leap-day-plus-years-clamps-by-the-gregorian-rule")
+		back, err2 := dt.Sub(verifQty(-amount, unit))
+		verifrt.Assert(err2 == nil && back.dateTime.Equal(got.dateTime), "subtracting-the-negated-amount-agrees")
+	} else {
+		d := Date{time.Date(y, 2, 29, 0, 0, 0, 0, time.UTC), dayLayout}
+		got, err := d.Add(q)
+		verifrt.Assert(err == nil && got.date.Equal(want), "leap-day-plus-years-clamps-by-the-gregorian-rule")
+		back, err2 := d.Sub(verifQty(-amount, unit))
+		verifrt.Assert(err2 == nil && back.date.Equal(got.date), "subtracting-the-negated-amount-agrees")
+	}
+	verifrt.Reach("end")
+}
